@@ -124,6 +124,10 @@ static void build_registry() {
       U("pointer", 8, uint8_t, pointer); GETONLY("rfc4884_length", 8, o.length()); }
     { typedef ICMP T; cls("ICMP_mtu", false, []() -> PDU* { ICMP* i = new ICMP(ICMP::DEST_UNREACHABLE); i->code(4); return i; }); icmp_head(false);
       GETONLY("rfc4884_length", 8, o.length()); U("mtu", 16, uint16_t, mtu); }
+    { typedef ICMP T; cls("ICMP_mtu_len", false, []() -> PDU* { ICMP* i = new ICMP(ICMP::DEST_UNREACHABLE); i->code(4); i->use_length_field(true); i->inner_pdu(RawPDU(std::string(36, 'q'))); return i; }); icmp_head(false);
+      GETONLY("rfc4884_length", 8, o.length()); U("mtu", 16, uint16_t, mtu); }
+    { typedef ICMP T; cls("ICMP_param_len", false, []() -> PDU* { ICMP* i = new ICMP(ICMP::PARAM_PROBLEM); i->use_length_field(true); i->inner_pdu(RawPDU(std::string(140, 'q'))); return i; }); icmp_head(false);
+      U("pointer", 8, uint8_t, pointer); GETONLY("rfc4884_length", 8, o.length()); }
     { typedef ICMP T; cls("ICMP_timestamp", false, []() -> PDU* { return new ICMP(ICMP::TIMESTAMP_REQUEST); }); icmp_head(false);
       U("id", 16, uint16_t, id); U("sequence", 16, uint16_t, sequence); U("original_timestamp", 32, uint32_t, original_timestamp);
       U("receive_timestamp", 32, uint32_t, receive_timestamp); U("transmit_timestamp", 32, uint32_t, transmit_timestamp); }
